@@ -15,7 +15,10 @@ package c01
 import (
 	"encoding/json"
 	"fmt"
+	"github.com/zenon-network/go-zenon/chain/genesis"
+	g "github.com/zenon-network/go-zenon/chain/genesis/mock"
 	"math/big"
+	"strings"
 	"time"
 
 	"github.com/zenon-network/go-zenon/chain/nom"
@@ -235,6 +238,12 @@ func run(c *xs.Ctx, r *xs.Result) {
 				}
 			}
 		}
+		for _, b := range c11.Bases() {
+			if "tight:c11:"+b.Name == rep.Base {
+				c11.Setup()
+				replay(c, r, hx.Base{Name: rep.Base, Prefix: b.Prefix}, rep.History)
+			}
+		}
 		return
 	}
 	var prev *prevState
@@ -282,6 +291,22 @@ func run(c *xs.Ctx, r *xs.Result) {
 		eb.Run()
 		r.Count("borrowed_families", 1)
 	}
+	// "never exceeds the token's maximum supply" for what the embedded contracts mint: the reward histories once more on a
+	// genesis whose ZNN / QSR caps leave room for one coin (c11's configuration is the last one applied above)
+	if !r.Incomplete {
+		var bs []hx.Base
+		for _, b := range c11.Bases() {
+			bs = append(bs, hx.Base{Name: "tight:c11:" + b.Name, Prefix: b.Prefix})
+		}
+		et := *e
+		et.Bases, et.Alphabet, et.Depth, et.SnapshotBases, et.NewNode = bs, tightAlphabet(), bd, true, newNodeFor("tight:")
+		et.Run()
+		r.Count("tight_cap_families", 1)
+	}
+}
+
+func tightAlphabet() []ops.Op {
+	return []ops.Op{M, {K: "M3"}, {K: "Call", S: "stake-collect", A: 1}, {K: "Call", S: "pillar-collect", A: 10}, {K: "Call", S: "update-stake", A: 3}}
 }
 
 type source struct {
@@ -371,8 +396,48 @@ func check(r *xs.Result, s *hx.Step, prev **prevState, prevTokRecv *[2]int) bool
 	return ok
 }
 
+// tightGenesis: the mock genesis with the maximum supply of ZNN and QSR lowered to the genesis supply plus one coin: what
+// embedded contracts mint (rewards, the liquidity programme) hits the cap at once
+var tightCfg *genesis.GenesisConfig
+
+func tightGenesis() *genesis.GenesisConfig {
+	if tightCfg != nil {
+		return tightCfg
+	}
+	data, err := json.Marshal(g.EmbeddedGenesis)
+	if err != nil {
+		panic(err)
+	}
+	cfg := new(genesis.GenesisConfig)
+	if err := json.Unmarshal(data, cfg); err != nil {
+		panic(err)
+	}
+	n := 0
+	for _, t := range cfg.TokenConfig.Tokens {
+		if t.TokenStandard == types.ZnnTokenStandard || t.TokenStandard == types.QsrTokenStandard {
+			t.MaxSupply = new(big.Int).Add(t.TotalSupply, big.NewInt(g.Zexp))
+			n++
+		}
+	}
+	if n != 2 {
+		panic("harness: ZNN and QSR not found in the mock genesis")
+	}
+	if err := genesis.CheckGenesis(cfg); err != nil {
+		panic(fmt.Sprintf("harness: tight genesis is not consistent: %v", err))
+	}
+	tightCfg = cfg
+	return cfg
+}
+
+func newNodeFor(base string) func(dir string) *vnode.Node {
+	if strings.HasPrefix(base, "tight:") {
+		return func(dir string) *vnode.Node { return vnode.New(vnode.Options{Dir: dir, Genesis: tightGenesis()}) }
+	}
+	return func(dir string) *vnode.Node { return vnode.New(vnode.Options{Dir: dir}) }
+}
+
 func replay(c *xs.Ctx, r *xs.Result, b hx.Base, hist []ops.Op) {
-	n := vnode.New(vnode.Options{Dir: c.TempDir()})
+	n := newNodeFor(b.Name)(c.TempDir())
 	defer n.Destroy()
 	for _, o := range b.Prefix {
 		ops.Apply(n, o)
